@@ -21,7 +21,7 @@ import numpy as np
 from . import core
 from .core import Case, cD, cZ, cN, clist, cbool
 from .c09 import (_cloud, _lattice, _distinct_values, _fix_weights, _cd, _cdl, _cdll, _fmt, _same, LAYOUTS,
-                  apply_layout, first_call_args, cast_variant, params_snapshot)
+                  apply_layout, first_call_args, cast_variant, params_snapshot, weight_patterns)
 
 ID = "C10"
 PROPS_FILE = "Props/C10.v"
@@ -29,8 +29,9 @@ IMPORTS = "From Verde Require Import Lib.QList Model.BlockReduce Model.Weights."
 SHARD = 40
 RULE = ("BlockMean.filter: clouds of 1..60 points (uniform / clustered / 2-D grids) with pairwise distinct data on a "
         "1/4 lattice in [-30,30] (1..3 components), blocks of one and of many members, no weights or one distinct "
-        "non-negative weight array per component (positive sum per block; 20 % constant - all equal, never 1, a different "
-        "constant per component - and 15 % piecewise-constant weights in both weighted modes, plus fixed edge cases), uncertainty on/off, center_coordinates, "
+        "non-negative weight array per component (positive sum per block; pattern chosen independently per component from "
+        "{uniform 1, another uniform constant, piecewise constant, varying, varying with zeros} in both weighted modes, all 16 "
+        "two-component and 4 three-component combinations also as fixed edge cases), uncertainty on/off, center_coordinates, "
         "drop_coords, extra coordinates, spacing/shape/region variants, read-only inputs, planted blocks whose "
         "variance is just below / above the tolerance; uncertainty=True without weights. variance_to_weights: "
         "arrays of 0..12 values drawn from {0, tol, nextafter(tol, +-), 1e-16, 1e-100, negatives, NaN, 1e100, ordinary "
@@ -179,7 +180,7 @@ def make_bm_case(vd, coords, data, weights, kw, kind, expect_valid=True):
            "ddof_probed": probe_ddof(vd),
            "dtypes": [str(np.asarray(a).dtype) for a in list(coords) + list(data) + (list(weights) if weights is not None else [])],
            "layouts": kw.get("_layouts"), "instance_reused": bool(kw.get("_twice")),
-           "weight_pattern": kw.get("_wpattern")}
+           "weight_patterns": kw.get("_wpatterns")}
     out = [obs[0]] + ([[a.tolist() for a in o] for o in obs[1:]] if obs[0] == "ok" else list(obs[1:])) + [{"inputs_and_params_unchanged": unchanged, "get_params_unchanged": params_ok}]
     return Case(inp, out, term, repro, kind, nontrivial=nontrivial)
 
@@ -251,24 +252,14 @@ def random_bm_config(rnd, vd, i, mode):
                     wv[j] = 0.0
             weights.append(np.array(wv))
     if weights is not None:
-        # constant (all equal, never 1) and piecewise-constant input weights, different per component: they
-        # cancel in the weighted mean but not in 1 / sum(w), and must not be mistaken for "no weights"
-        pat = rnd.random()
-        ints = weights[0].dtype.kind in "iu" or weights[0].dtype == np.float32
-        levels = [2, 3, 5, 7, 11, 13] if ints else [0.25, 0.5, 2.0, 2.5, 3.0, 7.0]
-        if pat < 0.2:
-            consts = rnd.sample(levels, len(weights))
-            weights = [np.full(n, c).astype(w.dtype) for c, w in zip(consts, weights)]
+        # every component gets its own pattern (uniform 1, another uniform constant, piecewise constant, varying,
+        # varying with zeros): uniform weights cancel in the weighted mean but not in 1 / sum(w), must not be
+        # mistaken for "no weights", and must not decide how the other components are treated
+        weights, kw["_wpatterns"] = weight_patterns(rnd, weights, n, piecewise=True)
+        if all(p_ in ("ones", "const") for p_ in kw["_wpatterns"]):
             kw["_wpattern"] = "constant"
-        elif pat < 0.35:
-            new = []
-            for w in weights:
-                k = rnd.randint(2, 3)
-                cuts = sorted(rnd.sample(range(1, n), min(k - 1, n - 1))) if n > 1 else []
-                lv = rnd.sample(levels, k)
-                new.append(np.array([lv[sum(j >= c for c in cuts)] for j in range(n)]).astype(w.dtype))
-            weights = new
-            kw["_wpattern"] = "piecewise-constant"
+        elif any(p_ in ("ones", "const", "piecewise") for p_ in kw["_wpatterns"]):
+            kw["_wpattern"] = "mixed"
     if shape2d is not None:
         coords = [c.reshape(shape2d) for c in coords]
         data = [d.reshape(shape2d) for d in data]
@@ -369,6 +360,18 @@ def bm_edge_cases(vd):
             out.append((c(), [d0.copy(), d1.copy()], [pw.copy(), pw[::-1].copy()], dict(kw), name))
             out.append((c(), [d1.copy()], [(one * 3).astype(np.int64)], dict(kw, _twice=True), name))
             out.append((c(), [d1.copy().astype(np.float32)], [(one * 7).astype(np.float32)], dict(kw, _epsd="eps20"), name))
+    # mixed per-component patterns in every position, 2 and 3 components, both weighted modes
+    pats = {"ones": one, "const": one * 2.5, "varying": w0, "zeros": w1}
+    combos = [(a_, b_) for a_ in pats for b_ in pats] + [("ones", "varying", "zeros"), ("const", "ones", "varying"),
+                                                         ("varying", "ones", "const"), ("ones", "ones", "varying")]
+    dd = [d0, d1, d2]
+    for k, combo in enumerate(combos):
+        for unc in (True, False):
+            kw = dict(center_coordinates=bool(k % 2), drop_coords=bool(k % 3), spacing=1, region=(0, 3, 0, 2), uncertainty=unc,
+                      _wpatterns=list(combo))
+            out.append(([e.copy(), n.copy(), up.copy()], [dd[j].copy() for j in range(len(combo))],
+                        [pats[c_].copy() * (1 if c_ in ("ones", "const") else j + 1) for j, c_ in enumerate(combo)], kw,
+                        "bm-edge-constw-" + ("uncertainty" if unc else "wvariance")))
     # one object, two surveys: the instance first filters a cloud with another bounding box (shifted / larger /
     # smaller, by point count) and point count; region=None, so each call must infer its own region
     for npts in (12, 13, 14):
